@@ -155,7 +155,7 @@ func (fr *Frame) execStmt(s *State, st ast.Stmt, label string) *State {
 			fr.eval(s, a)
 		}
 		fr.eng.assumptions["goroutines started by verified functions are abstracted by havoc of the whole heap"] = true
-		s.havocAll()
+		fr.havocEverything(s)
 		return s
 	case *ast.EmptyStmt:
 		return s
@@ -301,6 +301,7 @@ func (fr *Frame) assign(s *State, lhs ast.Expr, v *Val, pos token.Pos) {
 		case *types.Map:
 			m := fr.eval(s, x.X)
 			k := fr.convertTo(s, fr.eval(s, x.Index), u.Key())
+			fr.mapKeyCheck(s, u, k, pos)
 			v = fr.convertTo(s, v, u.Elem())
 			fr.vc.oblige(s, "nilmap", not(eq(m.S, "0")), pos, "assignment to entry in nil map")
 			vn, vs, dn, ds := fr.eng.mapHeaps(u)
@@ -596,6 +597,7 @@ func (fr *Frame) execSwitch(s *State, x *ast.SwitchStmt, label string) *State {
 	defer fr.popLoop()
 	var outs []*State
 	cur := s // state in which no previous case matched
+	var ft *State // state falling through from the previous case
 	var deflt *ast.CaseClause
 	for _, cs := range x.Body.List {
 		cc := cs.(*ast.CaseClause)
@@ -615,19 +617,51 @@ func (fr *Frame) execSwitch(s *State, x *ast.SwitchStmt, label string) *State {
 		c := fr.vc.small("case", "Bool", or(conds...))
 		sc := cur.fork(c)
 		cur = cur.fork(not(c))
-		if r := fr.execBlock(sc, cc.Body); r != nil {
+		if ft != nil {
+			sc = mergeStates(sc, ft)
+			ft = nil
+		}
+		body, falls := splitFallthrough(cc.Body)
+		r := fr.execBlock(sc, body)
+		if falls {
+			ft = r
+		} else if r != nil {
 			outs = append(outs, r)
 		}
 	}
 	if deflt != nil {
-		if r := fr.execBlock(cur, deflt.Body); r != nil {
+		if ft != nil {
+			// fallthrough into default is only right when default is textually last; otherwise unsupported
+			if x.Body.List[len(x.Body.List)-1] != ast.Stmt(deflt) {
+				fr.unsupported(x.Pos(), "fallthrough with non-final default")
+			}
+			cur = mergeStates(cur, ft)
+			ft = nil
+		}
+		body, falls := splitFallthrough(deflt.Body)
+		if falls {
+			fr.unsupported(x.Pos(), "fallthrough out of default")
+		}
+		if r := fr.execBlock(cur, body); r != nil {
 			outs = append(outs, r)
 		}
 	} else {
 		outs = append(outs, cur)
+		if ft != nil {
+			outs = append(outs, ft)
+		}
 	}
 	outs = append(outs, lc.breaks...)
 	return mergeAll(outs)
+}
+
+func splitFallthrough(body []ast.Stmt) ([]ast.Stmt, bool) {
+	if n := len(body); n > 0 {
+		if b, ok := body[n-1].(*ast.BranchStmt); ok && b.Tok == token.FALLTHROUGH {
+			return body[:n-1], true
+		}
+	}
+	return body, false
 }
 
 func (fr *Frame) execTypeSwitch(s *State, x *ast.TypeSwitchStmt, label string) *State {
